@@ -28,8 +28,7 @@ theorem send_ok (x : HS) (n : Nat) (hc : x.coh = true) (hi : x.stage = .idle) (h
   obtain ⟨⟨hp, hch⟩, -⟩ := hc
   subst hch
   rcases hp with hp | hp <;> subst hp <;>
-    exact ⟨_, by simp [HS.send, HS.start, HS.finish], by simp [HS.start, HS.finish], by
-      simp [HS.coh, HS.start, HS.finish], by simp [HS.start, HS.finish], by simp [HS.start, HS.finish]⟩
+    exact ⟨_, rfl, rfl, by simp [HS.coh, HS.start, HS.finish], rfl, rfl⟩
 
 /-- receiving a candidate event time -/
 theorem recvTime_ok (x : HS) (hc : x.coh = true) (hi : x.stage = .timeStarted) :
@@ -45,7 +44,7 @@ theorem recvTime_ok (x : HS) (hc : x.coh = true) (hi : x.stage = .timeStarted) :
     | some t => exact absurd (hst t rfl).1 (by simp)
   subst hs
   rcases hp with ⟨hp, hch⟩ | ⟨hp, hch⟩ <;> subst hp hch <;>
-    exact ⟨_, by simp [HS.recvTime, HS.recv, HS.finish], by simp, by simp [HS.coh], by simp, by simp⟩
+    exact ⟨_, rfl, rfl, by simp [HS.coh, HS.start, HS.finish], rfl, rfl⟩
 
 /-- starting an out-state computation of a suspended handler -/
 theorem startOut_ok (x : HS) (hc : x.coh = true) (hi : x.stage = .suspended) :
@@ -60,7 +59,7 @@ theorem startOut_ok (x : HS) (hc : x.coh = true) (hi : x.stage = .suspended) :
     | none => rfl
     | some t => exact absurd (hst t rfl).1 (by simp)
   subst hs hp hch
-  exact ⟨_, by simp [HS.startOut, HS.cont, HS.finish], by simp, by simp [HS.coh], by simp, by simp⟩
+  exact ⟨_, rfl, rfl, by simp [HS.coh, HS.start, HS.finish], rfl, rfl⟩
 
 /-- receive branch `out_state_started`: `state = idle; … ; _out_states[handler] = pipe.recv()` -/
 theorem recvOut_ok (x : HS) (hc : x.coh = true) (hi : x.stage = .outStarted) :
@@ -72,7 +71,7 @@ theorem recvOut_ok (x : HS) (hc : x.coh = true) (hi : x.stage = .outStarted) :
   simp only at hc
   obtain ⟨hp, hst⟩ := hc
   rcases hp with ⟨hp, hch⟩ | ⟨hp, hch⟩ <;> subst hp hch <;>
-    exact ⟨_, by simp [HS.recvOut, HS.recv, HS.finish], by simp, by simp [HS.coh], by simp, by simp⟩
+    exact ⟨_, rfl, rfl, by simp [HS.coh, HS.start, HS.finish], rfl, rfl⟩
 
 /-- the commit block succeeds on every handler that is not `event_time_started` and, if idle, has a stored
 out-state; the committed out-state carries the tag of the worker's in-state -/
@@ -95,7 +94,7 @@ theorem commit_ok (x : HS) (hc : x.coh = true) (hi : x.stage ≠ .timeStarted)
       obtain ⟨hp, hch⟩ := hp
       subst hch
       rcases hp with hp | hp <;> subst hp <;>
-        exact ⟨_, _, by simp [HS.commit], by simp, by simp [HS.coh], by simp, by simp⟩
+        exact ⟨_, _, rfl, rfl, by simp [HS.coh, HS.start, HS.finish], rfl, rfl, by simp [HS.quiescent]⟩
   | suspended =>
     have hs' : stored = none := by
       cases stored with
@@ -104,8 +103,7 @@ theorem commit_ok (x : HS) (hc : x.coh = true) (hi : x.stage ≠ .timeStarted)
     simp only at hp
     obtain ⟨hp, hch⟩ := hp
     subst hs' hp hch
-    exact ⟨_, _, by simp [HS.commit, HS.startOut, HS.cont, HS.finish, HS.recv], by simp, by simp [HS.coh], by simp,
-      by simp⟩
+    exact ⟨_, _, rfl, rfl, by simp [HS.coh, HS.start, HS.finish], rfl, rfl, by simp [HS.quiescent]⟩
   | outStarted =>
     have hs' : stored = none := by
       cases stored with
@@ -114,7 +112,7 @@ theorem commit_ok (x : HS) (hc : x.coh = true) (hi : x.stage ≠ .timeStarted)
     simp only at hp
     subst hs'
     rcases hp with ⟨hp, hch⟩ | ⟨hp, hch⟩ <;> subst hp hch <;>
-      exact ⟨_, _, by simp [HS.commit, HS.finish, HS.recv], by simp, by simp [HS.coh], by simp, by simp⟩
+      exact ⟨_, _, rfl, rfl, by simp [HS.coh, HS.start, HS.finish], rfl, rfl, by simp [HS.quiescent]⟩
 
 /-- the body of the trash loop succeeds on every handler that is not `event_time_started` and leaves it idle without
 stored out-state -/
@@ -132,16 +130,15 @@ theorem trash_ok (x : HS) (hc : x.coh = true) (hi : x.stage ≠ .timeStarted) :
     obtain ⟨hp, hch⟩ := hp
     subst hch
     rcases hp with hp | hp <;> subst hp <;>
-      exact ⟨_, _, by simp [HS.trash], by simp, by simp [HS.coh], by simp, by simp, by simp [HS.quiescent]⟩
+      exact ⟨_, _, rfl, rfl, by simp [HS.coh, HS.start, HS.finish], rfl, rfl, by simp [HS.quiescent]⟩
   | suspended =>
     simp only at hp
     obtain ⟨hp, hch⟩ := hp
     subst hp hch
-    exact ⟨_, _, by simp [HS.trash], by simp, by simp [HS.coh], by simp, by simp, by simp [HS.quiescent]⟩
+    exact ⟨_, _, rfl, rfl, by simp [HS.coh, HS.start, HS.finish], rfl, rfl, by simp [HS.quiescent]⟩
   | outStarted =>
     simp only at hp
     rcases hp with ⟨hp, hch⟩ | ⟨hp, hch⟩ <;> subst hp hch <;>
-      exact ⟨_, _, by simp [HS.trash, HS.recv, HS.finish], by simp, by simp [HS.coh], by simp, by simp,
-        by simp [HS.quiescent]⟩
+      exact ⟨_, _, rfl, rfl, by simp [HS.coh, HS.start, HS.finish], rfl, rfl, by simp [HS.quiescent]⟩
 
 end JF.MP
